@@ -664,6 +664,22 @@ def task_names(ctx, repo):
                   ("'%s'" % bad) in o.value.args[0] and cn in o.value.args[0])
             obs.append(Obligation('bad.%s.%d' % (bad, i), o.pc,
                                   z3.BoolVal(bool(ok)), m.path))
+    # ... also for an equation that names no array at all (only reduce /
+    # py_initialize / converged, or a loop over d_idx, s_idx, t, dt)
+    free = dict(ed=set(), es=set(), id=set(), is_=set())
+    for dest, sources, bad in (('X', ('D', 'S'), 'X'),
+                               ('D', ('D', 'Y'), 'Y')):
+        m, fn, ex, outs, mems = run_checker(repo, mn, 'ArrayFreeEquation',
+                                            free, dest=dest, sources=sources)
+        if not outs:
+            obs.append(Obligation('bad.arrayfree.%s.nopath' % bad, [],
+                                  z3.BoolVal(False), m.path))
+        for i, o in enumerate(outs):
+            ok = (o.kind == 'raise' and o.value.exc_type == 'RuntimeError'
+                  and o.value.args and isinstance(o.value.args[0], str) and
+                  ("'%s'" % bad) in o.value.args[0])
+            obs.append(Obligation('bad.arrayfree.%s.%d' % (bad, i), o.pc,
+                                  z3.BoolVal(bool(ok)), m.path))
 
     def rp(model, ob):
         from pyvc.repo import REPO_ROOT
